@@ -334,3 +334,76 @@ def l2cap_cut_bound_is_enough(i: int) -> bool:
     i = C(i, 0, 6)
     with untraced():
         return _wire_cut(WIRE_PROCS[i], 17) is None
+
+
+# ------------------------------------------------------------------------------------------ profile transactions
+def _profile_cut(proto, k):
+    """a request of a BR/EDR profile is awaiting its answer over an L2CAP channel; after k frames have crossed,
+    the channel closes (as it does when the link drops): the awaited call must end"""
+    from vf.props.c19 import _SChan, _SConn, _sbc
+    from bumble import avdtp, sdp, rfcomm
+    with detloop.running() as loop:
+        ca, cb = _SChan(loop), _SChan(loop)
+        ca.peer, cb.peer = cb, ca
+        if proto == 'avdtp_discover':
+            pa, pb = avdtp.Protocol(ca), avdtp.Protocol(cb)
+            ca.connection, cb.connection = _SConn(loop, lambda: pb), _SConn(loop, lambda: pa)
+            pb.add_sink(_sbc(True))
+            t = loop.create_task(pa.discover_remote_endpoints())
+        elif proto == 'avdtp_silent_peer':
+            pa = avdtp.Protocol(ca)
+            cb.sink = lambda pdu: None
+            t = loop.create_task(pa.get_capabilities(1))
+        elif proto == 'sdp_search':
+            class Conn:
+                async def create_l2cap_channel(self, spec):
+                    return ca
+            client = sdp.Client(Conn())
+            cb.sink = lambda pdu: None
+            loop.create_task(client.connect())
+            loop.run_ready()
+            t = loop.create_task(client.search_services([sdp.core.UUID.from_16_bits(0x1101)]))
+        elif proto == 'rfcomm_connect':
+            mux = rfcomm.Multiplexer(ca, rfcomm.Multiplexer.Role.INITIATOR)
+            cb.sink = lambda pdu: None
+            t = loop.create_task(mux.connect())
+        elif proto == 'rfcomm_open_dlc':
+            mux = rfcomm.Multiplexer(ca, rfcomm.Multiplexer.Role.INITIATOR)
+            peer = rfcomm.Multiplexer(cb, rfcomm.Multiplexer.Role.RESPONDER)
+            t0 = loop.create_task(mux.connect())
+            _settle(loop, 200)
+            assert t0.done() and t0.exception() is None
+            cb.sink = lambda pdu: None          # the peer stops answering
+            t = loop.create_task(mux.open_dlc(3))
+        else:
+            raise KeyError(proto)
+        n = 0
+        while n < k and loop.ready:
+            _step(loop)
+            n += 1
+        if n < k:
+            return None
+        ca.emit('close')
+        cb.emit('close')
+        if not _settle(loop, 2000):
+            return ['no quiescence']
+        return [] if t.done() else ['awaited call never ends']
+
+
+PROFILE_PROCS = ['avdtp_discover', 'avdtp_silent_peer', 'sdp_search', 'rfcomm_connect', 'rfcomm_open_dlc']
+
+
+def _canary_avdtp_waiters_kept():
+    from bumble import avdtp
+    avdtp.Protocol.on_l2cap_channel_close = lambda self: self.emit(self.EVENT_CLOSE)
+
+
+@harness(pre=['1 <= k <= 12'], family='profile-cut', twin=True, kernels=('bumble.avdtp.Protocol.on_l2cap_channel_close', 'bumble.avdtp.Protocol.send_command', 'bumble.sdp.Client.send_request',
+                                                                         'bumble.sdp.Client.on_channel_close', 'bumble.rfcomm.Multiplexer.on_l2cap_channel_close', 'bumble.rfcomm.Multiplexer.connect', 'bumble.rfcomm.Multiplexer.open_dlc'),
+         timeout=(90, 300), grid={'proto': PROFILE_PROCS}, canaries=[('avdtp-transactions-not-released', _canary_avdtp_waiters_kept)],
+         bounds='AVDTP discovery (answering and silent peer), SDP service search, RFCOMM multiplexer connect and DLC open over stub L2CAP channels: the channel closes after each of the first k loop callbacks (1 <= k <= 12 covers the whole exchange; k = 0 would start the request on an already closed channel, which is outside): the awaited request ends with a result, an error or a cancellation')
+def profile_cut(k: int, proto: str) -> bool:
+    k = C(k, 1, 12)
+    with untraced():
+        r = _profile_cut(proto, k)
+        return r is None or not r
